@@ -110,6 +110,10 @@ type request struct {
 	Oracle string   `json:"oracle"` // frame | diff | baseline | info
 	Seq    []string `json:"seq"`
 	Known  []string `json:"known,omitempty"` // signatures listed as known: must not shadow another finding of the same step
+	// CheckFrom: steps (0 = base world, i = i-th operation) before this one are replayed
+	// without judging them, because the enumeration has already judged that prefix as a
+	// sequence of its own (prefix-closed, shortest first) and found it clean.
+	CheckFrom int `json:"check_from,omitempty"`
 }
 
 type reply struct {
@@ -159,13 +163,17 @@ type checker struct {
 	inst     rootDigests
 }
 
+func (ck *checker) digestOneSupplied(su *world.Supplied) map[string]string {
+	d := world.NewDigest()
+	d.Root("supplied:"+su.Name, su.Ptr)
+	ck.s.st.merge(d)
+	return d.Leaves
+}
+
 func (ck *checker) digestSupplied() rootDigests {
 	out := rootDigests{}
 	for _, su := range ck.w.Supplied {
-		d := world.NewDigest()
-		d.Root("supplied:"+su.Name, su.Ptr)
-		ck.s.st.merge(d)
-		out[su.Name] = d.Leaves
+		out[su.Name] = ck.digestOneSupplied(su)
 	}
 	return out
 }
@@ -181,24 +189,43 @@ func (ck *checker) digestStorage() rootDigests {
 	return out
 }
 
-func (ck *checker) digestInsts() rootDigests {
-	out := rootDigests{}
-	// objects with an owner of their own are not walked again through an instance
+// stopSet: objects with an owner of their own are not walked again through an instance
+func (ck *checker) stopSet(supplied []*world.Supplied) map[unsafe.Pointer]string {
 	stop := map[unsafe.Pointer]string{}
 	for _, g := range ck.s.gv {
 		if rv := reflect.ValueOf(g.ptr).Elem(); rv.Kind() == reflect.Pointer && !rv.IsNil() {
 			stop[rv.UnsafePointer()] = g.root
 		}
 	}
-	for _, su := range ck.w.Supplied {
+	for _, su := range supplied {
 		stop[reflect.ValueOf(su.Ptr).UnsafePointer()] = "supplied:" + su.Name
 	}
+	return stop
+}
+
+func (ck *checker) digestOneInst(i *world.Inst, stop map[unsafe.Pointer]string, insts []*world.Inst) map[string]string {
+	d := world.NewDigest()
+	// another instance reached through this one (the provider inside a LegacyServer) is reported at its own root
+	own := map[unsafe.Pointer]string{}
+	for k, v := range stop {
+		own[k] = v
+	}
+	for _, o := range insts {
+		if rv := reflect.ValueOf(o.Obj); o != i && rv.Kind() == reflect.Pointer && !rv.IsNil() {
+			own[rv.UnsafePointer()] = "inst:" + o.Name
+		}
+	}
+	d.Stop = own
+	d.Root("inst:"+i.Name, &i.Obj)
+	ck.s.st.merge(d)
+	return d.Leaves
+}
+
+func (ck *checker) digestInsts() rootDigests {
+	out := rootDigests{}
+	stop := ck.stopSet(ck.w.Supplied)
 	for _, i := range ck.w.Insts {
-		d := world.NewDigest()
-		d.Stop = stop
-		d.Root("inst:"+i.Name, &i.Obj)
-		ck.s.st.merge(d)
-		out[i.Name] = d.Leaves
+		out[i.Name] = ck.digestOneInst(i, stop, ck.w.Insts)
 	}
 	return out
 }
@@ -378,11 +405,32 @@ func (s *server) run(req request) (rep reply) {
 
 func (s *server) runInBubble(req request) reply {
 	var w *world.World
-	if p := engine.Safe(func() { w = world.Build() }); p != "" {
+	ck := &checker{s: s, supplied: rootDigests{}, storage: rootDigests{}, inst: rootDigests{}}
+	hooks := &world.Hooks{OnHarnessStorage: func(f func()) {
+		if ck.w == nil {
+			f()
+			return
+		}
+		ck.harnessStorage(f)
+	}}
+	if req.Oracle == "frame" {
+		// every object is digested when it comes into existence: a caller-supplied object
+		// before the library sees it, an instance as soon as its constructor has returned
+		var supplied []*world.Supplied
+		hooks.OnSupply = func(su *world.Supplied) {
+			supplied = append(supplied, su)
+			ck.supplied[su.Name] = ck.digestOneSupplied(su)
+		}
+		var insts []*world.Inst
+		hooks.OnAdd = func(i *world.Inst) {
+			insts = append(insts, i)
+			ck.inst[i.Name] = ck.digestOneInst(i, ck.stopSet(supplied), insts)
+		}
+	}
+	if p := engine.Safe(func() { w = world.Build(hooks) }); p != "" {
 		return reply{Err: "base world cannot be built: " + p}
 	}
-	ck := &checker{s: s, w: w}
-	w.OnHarnessStorage = ck.harnessStorage
+	ck.w = w
 	known := map[string]bool{}
 	for _, k := range req.Known {
 		known[k] = true
@@ -403,22 +451,35 @@ func (s *server) runInBubble(req request) reply {
 		return reply{Rule: rule, Outcome: pick.what, Sig: "C20/" + pick.what + "/" + entry + "/" + pick.class,
 			Detail: fmt.Sprintf("after %v: %s (%d object(s)/aspect(s) differ in this step)", req.Seq, pick.detail, len(fs))}
 	}
+	if req.Oracle == "dump" { // diagnosis: the digest leaves of the base world's instances
+		ck.baseline()
+		m := map[string]any{}
+		for k, v := range ck.inst {
+			m[k] = v
+		}
+		return reply{Info: m}
+	}
 	rule := req.Oracle + "/base-world"
 	last := "ok"
 	// step 0: building the base world is itself a history of default constructions
-	switch req.Oracle {
-	case "frame":
-		ck.glob = s.pristine
-		ck.supplied, ck.storage, ck.inst = rootDigests{}, rootDigests{}, rootDigests{}
-		if f := ck.frame(); len(f) > 0 {
-			return mk(rule, "base-world(default constructors)", f)
-		}
-	case "diff":
-		if f := ck.differential(); len(f) > 0 {
-			return mk(rule, "base-world(default constructors)", f)
+	ck.glob = s.pristine
+	if req.CheckFrom == 0 {
+		switch req.Oracle {
+		case "frame":
+			if f := ck.frame(); len(f) > 0 {
+				return mk(rule, "base-world(default constructors)", f)
+			}
+		case "diff":
+			if f := ck.differential(); len(f) > 0 {
+				return mk(rule, "base-world(default constructors)", f)
+			}
 		}
 	}
-	for _, name := range req.Seq {
+	for idx, name := range req.Seq {
+		step := idx + 1
+		if step == req.CheckFrom && req.Oracle == "frame" {
+			ck.baseline() // the state before the first judged step
+		}
 		o := world.OpByName(name)
 		if o == nil {
 			return reply{Err: "unknown operation " + name}
@@ -426,6 +487,9 @@ func (s *server) runInBubble(req request) reply {
 		rule = req.Oracle + "/" + o.Kind
 		if p := engine.Safe(func() { last = o.Run(w) }); p != "" {
 			last = "panic:" + p
+		}
+		if step < req.CheckFrom {
+			continue
 		}
 		switch req.Oracle {
 		case "frame":
@@ -455,7 +519,7 @@ func (s *server) references() error {
 			return
 		}
 		pn := engine.Bubble(s.t, 0, func() {
-			w := world.Build()
+			w := world.Build(nil)
 			if ctor == nil {
 				for _, i := range w.Insts {
 					s.refs[i.Ref] = w.Behaviour(i)
@@ -658,10 +722,18 @@ func evaluator(c *engine.Check) func(request) reply {
 	}
 }
 
-// collectInfo merges the bookkeeping of every live worker child.
-func collectInfo(ops []string) map[string]any {
+var info = struct {
+	skipped, guarded map[string]int
+	restores, kids   int
+	vars, leaves     any
+}{skipped: map[string]int{}, guarded: map[string]int{}}
+
+// harvest merges the bookkeeping of every live worker child into info and stops
+// the children (called after each part; the next part starts fresh processes).
+func harvest() {
 	childMu.Lock()
-	cs := append([]*child{}, children...)
+	cs := children
+	children = nil
 	childMu.Unlock()
 	sum := func(dst map[string]int, src any) {
 		if m, ok := src.(map[string]any); ok {
@@ -672,29 +744,32 @@ func collectInfo(ops []string) map[string]any {
 			}
 		}
 	}
-	skipped, guarded := map[string]int{}, map[string]int{}
-	restores := 0
-	out := map[string]any{}
 	for _, ch := range cs {
-		r, err := ch.eval(request{Oracle: "info"})
-		if err != nil || r.Info == nil {
-			continue
+		if r, err := ch.eval(request{Oracle: "info"}); err == nil && r.Info != nil {
+			sum(info.skipped, r.Info["not_walked_types"])
+			sum(info.guarded, r.Info["mutex_guarded_struct_types_not_compared"])
+			if f, ok := r.Info["restores_verified"].(float64); ok {
+				info.restores += int(f)
+			}
+			info.vars = r.Info["package_level_variables_tracked"]
+			info.leaves = r.Info["digest_leaves_of_package_level_state"]
 		}
-		sum(skipped, r.Info["not_walked_types"])
-		sum(guarded, r.Info["mutex_guarded_struct_types_not_compared"])
-		if f, ok := r.Info["restores_verified"].(float64); ok {
-			restores += int(f)
-		}
-		out["package_level_variables_tracked"] = r.Info["package_level_variables_tracked"]
-		out["digest_leaves_of_package_level_state"] = r.Info["digest_leaves_of_package_level_state"]
+		info.kids++
+		ch.stop()
 	}
-	out["not_walked_types"] = skipped
-	out["mutex_guarded_struct_types_not_compared"] = guarded
-	out["restores_verified"] = restores
-	out["worker_children"] = len(cs)
-	out["worker_children_replaced_after_failed_restore"] = restoreFailures.n
-	out["operations"] = ops
-	return out
+}
+
+func collectInfo(ops []string) map[string]any {
+	return map[string]any{
+		"package_level_variables_tracked":               info.vars,
+		"digest_leaves_of_package_level_state":          info.leaves,
+		"not_walked_types":                              info.skipped,
+		"mutex_guarded_struct_types_not_compared":       info.guarded,
+		"restores_verified":                             info.restores,
+		"worker_children":                               info.kids,
+		"worker_children_replaced_after_failed_restore": restoreFailures.n,
+		"operations":                                    ops,
+	}
 }
 
 var restoreFailures struct {
@@ -711,13 +786,13 @@ func TestCheck(t *testing.T) {
 	for _, o := range world.Ops {
 		names = append(names, o.Name)
 	}
-	c.SetRule(fmt.Sprintf("E1 full products, one per length 0..%d: oracle{frame,diff} x every sequence of operations over an alphabet of %d operations (a sequence extending a violating sequence is decided by that prefix and not re-executed), each sequence replayed on a fresh world in a worker process whose package-level state is restored from a pristine snapshot and verified by digest before the sequence; distinct = (oracle/kind of last op, outcome class)", depth, len(world.Ops)))
+	c.SetRule(fmt.Sprintf("E1 full products, one per length 0..%d: oracle{frame,diff} x every sequence of operations over an alphabet of %d operations (a sequence extending a violating sequence is decided by that prefix and not re-executed; the enumeration is prefix-closed and shortest-first, so in a sequence of length >=2 only the last step is judged - its prefix was judged as a sequence of its own; a replay judges every step), each sequence replayed on a fresh world in a worker process whose package-level state is restored from a pristine snapshot and verified by digest before the sequence; distinct = (oracle/kind of last op, outcome class)", depth, len(world.Ops)))
 	c.Assume(
 		"reduction for 'any number of goroutines': a data race on library-owned state needs a write; if no operation of the alphabet writes package-level state, caller-supplied objects or instance fields outside a struct that holds its own mutex, no interleaving of these operations can race on such state (the mutex-guarded remoteKeySet is explored by C13)",
 		"fields of a struct that itself holds a sync.Mutex/RWMutex are assumed to be guarded by it and are not compared (listed under c20_info.mutex_guarded_struct_types_not_compared)",
 		"channels, sync.*/atomic.* values and structs of third-party packages (otel tracer, chi router, gorilla/schema coders, html/template, slog, go-jose signer, x/oauth2 internals) are not walked: by pointer they are compared by identity, by value they are skipped (c20_info.not_walked_types)",
 		"funcs are digested by code pointer (two closures of the same literal are equal)",
-		"storage-owned device states are tracked from the end of the operation in which the storage created them",
+		"storage-owned device states are under the frame condition from the first storage action of the harness that touches them (approval / hand-out of the pointer), at the latest from the end of the operation that created them; writes the harness makes in the role of the storage owner are accepted leaf by leaf",
 		"refstore (with ShareDevState: the storage hands out its own *DeviceAuthorizationState, as the repository's example storage does) and the in-process transport installed as http.DefaultTransport are trusted",
 		"caller-supplied *oauth2.Config is handed over with AuthStyle 0 (the constructor's unconditional store of its own AuthStyle into that object is not judged: ownership of the config passes to the relying party)",
 		"race supplement: free-running under the Go race detector; a report is a violation, silence is NOT a proof of race freedom",
@@ -755,6 +830,7 @@ func TestCheck(t *testing.T) {
 				return engine.OK(r.Rule, r.Outcome)
 			}
 		}})
+	harvest()
 
 	// One E1 part per sequence length, shortest first. A replay stops at its first
 	// violation, so a sequence that extends an already violating sequence is decided
@@ -795,7 +871,13 @@ func TestCheck(t *testing.T) {
 				ev := evaluator(c)
 				return func(v engine.Vec) engine.Result {
 					oracle, seq := space[0].Vals[v[0]], seqOf(v)
-					r := ev(request{Oracle: oracle, Seq: seq, Known: knownSigs})
+					// every proper prefix was judged (and found clean, else this vector was pruned) by
+					// the part of the previous length: only the last step still has to be judged
+					from := 0
+					if L >= 2 && c.ReplayFile == "" {
+						from = L
+					}
+					r := ev(request{Oracle: oracle, Seq: seq, Known: knownSigs, CheckFrom: from})
 					if r.Sig != "" {
 						vmu.Lock()
 						violated[key(oracle, seq)] = true
@@ -804,6 +886,7 @@ func TestCheck(t *testing.T) {
 					return engine.Result{Rule: r.Rule, Outcome: r.Outcome, Sig: r.Sig, Detail: r.Detail}
 				}
 			}})
+		harvest()
 	}
 	c.Extra("pruned_extensions_of_violating_prefix", pruned)
 
@@ -844,6 +927,15 @@ func raceWriters(report string) []string {
 }
 
 func racePass(c *engine.Check) {
+	replayPair := ""
+	if c.ReplayFile != "" {
+		var desc map[string]string
+		part, err := c.LoadReplay(&desc)
+		if err != nil || part != "race" {
+			return
+		}
+		replayPair = desc["pair"]
+	}
 	root := c.Root
 	bin := filepath.Join(root, ".build", "c20race.test")
 	args := []string{"test", "-c", "-race", "-vet=off", "-o", bin}
@@ -862,13 +954,8 @@ func racePass(c *engine.Check) {
 	}
 	iters := engine.Pick(c, "6", "50")
 	env := append(os.Environ(), "C20_RACE_ITERS="+iters, "GORACE=halt_on_error=0")
-	if c.ReplayFile != "" {
-		var desc map[string]string
-		part, err := c.LoadReplay(&desc)
-		if err != nil || part != "race" {
-			return
-		}
-		env = append(env, "C20_RACE_PAIR="+desc["pair"])
+	if replayPair != "" {
+		env = append(env, "C20_RACE_PAIR="+replayPair)
 	}
 	const shards = 4
 	outs := make([]string, shards)
